@@ -120,9 +120,7 @@ class PrattModel:
             if aff and aff[0] == "prefix":
                 return ("un", t[1], self.expr(prec - 1))
             raise ValueError("expected prefix or primary")
-        if t[0] == "group":
-            return t[1]
-        return t
+        return t  # leaf or ('group', already-read tree)
 
     def led(self, lhs):
         t = self.peek()
